@@ -326,6 +326,41 @@ Proof.
     + simpl. split; auto.
 Qed.
 
+(* ------------------------------------------------------------------ the retry is necessary
+   Instance A evaluates the text t on a row rA, which puts a program specialised on rA's shape into the
+   process-wide cache; that program fails at run time on instance B's row rB, although the program
+   compiled on rB's own shape runs and returns v.  With the failure taken as final (iso_eval_final) B is
+   told "error" next to A and v alone; the code (iso_eval_cached, which retries on the env path) tells B
+   v in both situations, for every sound engine. *)
+Lemma iso_cfind_hd : forall P (t : bytes) (p : P) c, iso_cfind t ((t, p) :: c) = Some p.
+Proof. intros. simpl. rewrite iso_bytes_eqb_refl. reflexivity. Qed.
+
+Lemma iso_final_interference : forall P (E : iengine P) t rA rB pA pB v,
+  ie_compile E t (iso_shape_of rA) = Some pA -> ie_exec E pA rB = None ->
+  ie_compile E t (iso_shape_of rB) = Some pB -> ie_exec E pB rB = Some v ->
+  fst (iso_eval_final E (snd (iso_eval_final E [] t rA)) t rB) = None /\
+  fst (iso_eval_final E [] t rB) = Some v /\
+  (iso_sound E ->
+   fst (iso_eval_cached E (snd (iso_eval_cached E [] t rA)) t rB) = Some v /\
+   fst (iso_eval_cached E [] t rB) = Some v).
+Proof.
+  intros P E t rA rB pA pB v HcA HeA HcB HeB.
+  assert (HfA : snd (iso_eval_final E [] t rA) = [(t, pA)]).
+  { unfold iso_eval_final. simpl. rewrite HcA. reflexivity. }
+  split; [|split].
+  - rewrite HfA. unfold iso_eval_final. rewrite iso_cfind_hd. simpl. exact HeA.
+  - unfold iso_eval_final. simpl. rewrite HcB. simpl. exact HeB.
+  - intro Hs.
+    assert (Hfr : ie_fresh E t rB = Some v) by (eapply Hs; eauto).
+    split.
+    + assert (Hok : iso_cache_ok E (snd (iso_eval_cached E [] t rA))).
+      { destruct (iso_cache_transparent P E [] t rA Hs (iso_cache_ok_nil P E)) as [_ T2]. exact T2. }
+      destruct (iso_cache_transparent P E (snd (iso_eval_cached E [] t rA)) t rB Hs Hok) as [T _].
+      rewrite T. exact Hfr.
+    + destruct (iso_cache_transparent P E [] t rB Hs (iso_cache_ok_nil P E)) as [T _].
+      rewrite T. exact Hfr.
+Qed.
+
 (* cache-free meaning of the row functions: every expression is computed by the env path *)
 Fixpoint iso_project_pure {P} (E : iengine P) (its : list iitem) (w : irow) (ares : list (bytes * ival)) (res : irow) : irow :=
   match its with
